@@ -99,6 +99,13 @@ SRC_DIRECT = {
     "C13": [],
 }
 SRC_SHARED = ["SrcBase", "SrcPerform", "SrcEnv", "SrcAll", "SrcScen"]
+# which properties a shared tie is charged to when it breaks on its own account (its imports still check) and the run
+# finds no concrete failing input: the composition of Network.perform_action (gates, draw, host step, update) and the
+# environment wrapper (reward, flags, counter, install) belong to the properties that speak about exactly that
+SHARED_OWNERS = {
+    "SrcPerform": ["C01", "C02", "C07", "C13"],
+    "SrcEnv": ["C05", "C06", "C12", "C13"],
+}
 for _pid, _mods in SRC_DIRECT.items():
     PROPS[_pid]["src"] = _mods
     PROPS[_pid]["src_shared"] = SRC_SHARED
